@@ -80,12 +80,65 @@ def _work(task):
                 "float_mode": mode, "functions": {}}
 
 
+def _child(task, conn):
+    try:
+        conn.send(_work(task))
+    except Exception:  # noqa: BLE001
+        conn.send(None)
+    finally:
+        conn.close()
+
+
 def run_tasks(tasks, nproc):
+    """Run every task in its own process (at most nproc at a time) under a hard wall-clock limit:
+    a task that hangs is killed and reported as an error, it never blocks the check."""
     if not tasks:
         return []
     ctx = mp.get_context("fork")
-    with ctx.Pool(min(nproc, len(tasks)), maxtasksperchild=8) as pool:
-        return pool.map(_work, tasks, chunksize=1)
+    results = [None] * len(tasks)
+    pending = list(enumerate(tasks))
+    running = {}  # index -> (process, conn, deadline)
+    while pending or running:
+        while pending and len(running) < nproc:
+            i, t = pending.pop(0)
+            opts = t[6] if len(t) > 6 else {}
+            budget = (opts.get("budget_s") or 600.0)
+            parent, child = ctx.Pipe(duplex=False)
+            p = ctx.Process(target=_child, args=(t, child), daemon=True)
+            p.start()
+            child.close()
+            running[i] = (p, parent, time.time() + budget * 1.5 + 120)
+        done = []
+        for i, (p, conn, deadline) in running.items():
+            if conn.poll(0):
+                try:
+                    results[i] = conn.recv()
+                except EOFError:
+                    results[i] = None
+                p.join(5)
+                done.append(i)
+            elif not p.is_alive():
+                done.append(i)
+            elif time.time() > deadline:
+                p.terminate()
+                p.join(5)
+                results[i] = _crash_result(tasks[i], "killed: exceeded the hard wall-clock limit")
+                done.append(i)
+        for i in done:
+            running[i][1].close()
+            del running[i]
+        if not done:
+            time.sleep(0.05)
+    for i, r in enumerate(results):
+        if r is None:
+            results[i] = _crash_result(tasks[i], "worker died without a result")
+    return results
+
+
+def _crash_result(task, why):
+    return {"harness": task[1], "ci": task[2], "case": [], "obligations": [], "ends": [], "paths": 0,
+            "solver_s": 0, "max_query_s": 0, "queries": 0, "covers": {}, "inlined": [],
+            "errors": [why], "wall_s": 0, "float_mode": task[3], "functions": {}}
 
 
 # ------------------------------------------------------------------ cross-check
@@ -423,9 +476,19 @@ def main(argv):
                               "evaluations": nr["evaluations"], "failures": len(nr["failures"])})
         if nr["evaluations"] == 0:
             errors.append(f"native check {nc.name}: zero evaluations")
-        for f in nr["failures"][:3]:
-            path = write_replay(prop, nc.name, 0, (), f["label"], f["witness"], "native run of the real code", True, functions, native=True)
-            violations.append((f["label"], path, True))
+        n_new = 0
+        for f in nr["failures"]:
+            kfs = [k for k in known["findings"] if k.get("harness") == nc.name and f["label"] in (k.get("labels") or [])
+                   and (k.get("witness_key") is None or f["witness"].get(k["witness_key"]) in k.get("witness_values", []))]
+            if kfs:
+                for k in kfs:
+                    if k not in known_seen:
+                        known_seen.append(k)
+                continue
+            n_new += 1
+            if n_new <= 3:
+                path = write_replay(prop, nc.name, 0, (), f["label"], f["witness"], "native run of the real code", True, functions, native=True)
+                violations.append((f["label"], path, True))
 
     wall = time.time() - t0
     # ---- report ------------------------------------------------------------------
